@@ -9,6 +9,9 @@ import (
 )
 
 // renderSkel renders a skeleton statement as uGO source.
+// bareReturns: return statements are rendered without a value (the compiler has a separate path for them)
+var bareReturns bool
+
 func renderSkel(b *strings.Builder, s *Sexp, indent string, loopDepth *int) {
 	switch s.Head() {
 	case "log":
@@ -18,7 +21,11 @@ func renderSkel(b *strings.Builder, s *Sexp, indent string, loopDepth *int) {
 	case "continue":
 		fmt.Fprintf(b, "%scontinue\n", indent)
 	case "ret":
-		fmt.Fprintf(b, "%sreturn %s\n", indent, s.List[1].Atom)
+		if bareReturns {
+			fmt.Fprintf(b, "%sreturn\n", indent)
+		} else {
+			fmt.Fprintf(b, "%sreturn %s\n", indent, s.List[1].Atom)
+		}
 	case "throw":
 		fmt.Fprintf(b, "%sthrow \"t%s\"\n", indent, s.List[1].Atom)
 	case "fail":
@@ -91,7 +98,9 @@ func atomOfErrString(s string) string {
 }
 
 func runC03(kind string, args []*Sexp) *Sexp {
+	bareReturns = kind == "skelvmb"
 	src := skelScript(args)
+	bareReturns = false
 	if kind == "skelsrc" {
 		return A(strings.ReplaceAll(strings.ReplaceAll(src, "\n", "\\n"), " ", "_"))
 	}
